@@ -18,7 +18,8 @@ RULE = (
     "case = generated scenario (reports on/off) x schedule x optional lost batches (sbatch failing for its whole "
     "retry series -> missing jobs) x optional resubmit-jobs attempt while the submission is incomplete (fired a "
     "generated number of steps into the run, or at a quiescent incomplete point instead of the recovery) x "
-    "resubmit-jobs flags (all 8 combinations) x new exit codes for the rerun x optional second resubmission; "
+    "resubmit-jobs flags (all 8 combinations) x new exit codes for the rerun x optional second resubmission x optional "
+    "cancel-jobs ending the first run; "
     "oracle: launches after the command are exactly the closure (selected by flags + transitive dependents) minus "
     "jobs canceled again, each once, each after all its blockers have rows; results of jobs outside the closure "
     "are field-for-field identical; afterwards one result per job; on an incomplete submission the command exits "
@@ -47,6 +48,8 @@ def cases(draw):
         "flags": draw(FLAGS),
         "rc2": draw(st.dictionaries(st.sampled_from(names), st.sampled_from([0, 0, 1]), max_size=4)),
         "repeat": draw(st.one_of(st.none(), FLAGS)),
+        # the first run may end by the user's cancel-jobs (jobs left not submitted / batches killed)
+        "cancel": draw(st.one_of(st.none(), st.none(), st.none(), st.integers(5, 150))),
     }
 
 
@@ -100,6 +103,9 @@ def do_resubmit(sim, case, flags, v, res, label):
         return False
     sel, closure = expected_closure(scn, before, flags)
     raw_before = {r["name"]: r for r in before["raw"]["results"]}
+    js_before = sim.job_status() or {"jobs": []}
+    # jobs that were never handed to the HPC in the previous run (possible after cancel-jobs) and are not selected now
+    unsub_unselected = {j["name"] for j in js_before["jobs"] if j["state"] == "not_submitted"} - closure
     mark = len(w.log)
     w.note("user", cmd=f"resubmit {flags}")
     vt = sim.user_cmd(["resubmit-jobs", sim.out] + flag_args(flags), name=label)
@@ -147,7 +153,13 @@ def do_resubmit(sim, case, flags, v, res, label):
     for n in sorted(jobs):
         if n not in closure:
             if post_launch.get(n):
-                v.append(C.viol("C13:unselected-job-rerun", f"{tag}: job {n} is outside the closure but was started again"))
+                if n in unsub_unselected:
+                    v.append(C.viol("C13:unselected-job-rerun|was-not-submitted", f"{tag}: job {n} was never submitted in the previous "
+                                    f"(canceled) run, is not selected by the flags, yet the resubmission ran it"))
+                else:
+                    v.append(C.viol("C13:unselected-job-rerun", f"{tag}: job {n} is outside the closure but was started again"))
+            if n in unsub_unselected:
+                continue  # consequences of the finding above (such a job gets a result) are not reported separately
             if preserved(raw_before.get(n)) != preserved(raw_after.get(n)):
                 v.append(C.viol("C13:untouched-result-changed", f"{tag}: result of job {n} changed from {raw_before.get(n)} to "
                                 f"{raw_after.get(n)}"))
@@ -166,7 +178,14 @@ def do_resubmit(sim, case, flags, v, res, label):
     # afterwards: one entry per job that had a result or was rerun; jobs that were missing and not selected stay missing
     want_results = sorted(set(raw_before) | closure)
     want_missing = sorted(set(before["missing"]) - closure)
-    if sorted(raw_after) != want_results or sorted(after["missing"]) != want_missing or after["dups"]:
+    got_results = sorted(set(raw_after) - unsub_unselected)
+    got_missing = sorted(set(after["missing"]) - unsub_unselected)
+    want_results = sorted(set(want_results) - unsub_unselected)
+    want_missing = sorted(set(want_missing) - unsub_unselected)
+    if unsub_unselected:
+        res["excluded"] = True
+        res["counters"]["unselected_unsubmitted_jobs_exempted"] = res["counters"].get("unselected_unsubmitted_jobs_exempted", 0) + len(unsub_unselected)
+    if got_results != want_results or got_missing != want_missing or after["dups"]:
         v.append(C.viol("C13:results-not-one-per-job", f"{tag}: after the rerun results={sorted(raw_after)} missing={after['missing']} "
                         f"duplicates={after['dups']}; expected results={want_results} missing={want_missing}"))
     if len(closure) > len(sel):
@@ -233,6 +252,19 @@ def run_case(case):
                 st_["vt"] = sim.user_cmd(["resubmit-jobs", sim.out] + flag_args(case["flags"]), name="early_resubmit")
 
             w.user_events.append(("early-resubmit", pred, fire, True))
+        if case.get("cancel") is not None and not early:
+            def cpred(ww):
+                if not os.path.exists(os.path.join(sim.out, "submitter_groups.json")):
+                    return False
+                st_.setdefault("c0", ww.steps)
+                return ww.steps - st_["c0"] >= case["cancel"]
+
+            def cfire(ww):
+                if not sim.is_complete():
+                    st_["canceled"] = True
+                    sim.user_cmd(["cancel-jobs", sim.out], name="cancel")
+
+            w.user_events.append(("cancel", cpred, cfire, True))
         sim.submit()
         if early and early["quiescent"]:
             # run to quiescence; if incomplete, try resubmit-jobs instead of the recovery
@@ -298,6 +330,8 @@ def run_case(case):
             res["classes"].append("has_missing_jobs")
         if scn["reports"]:
             res["classes"].append("reports_on")
+        if st_.get("canceled"):
+            res["classes"].append("first_run_canceled")
         # the rerun
         w.faults[:] = []
         w.exit_codes.update(case["rc2"])
